@@ -16,6 +16,19 @@ _HIST_ASSUME = [
 ]
 
 PROPS = {
+    "C14": {
+        "level": "exploration",
+        "jobs": [
+            {"run": "^TestC14GapMatrix", "checks": {"quick": 6, "thorough": 60}, "shards": {"quick": 2, "thorough": 12}},
+            {"run": "^TestC14ConcurrentWriters", "checks": {"quick": 10, "thorough": 150}, "shards": {"quick": 1, "thorough": 4}},
+            {"run": "^TestC14RateLimit", "checks": {"quick": 30, "thorough": 400}, "shards": {"quick": 1, "thorough": 4}},
+        ],
+        "assumptions": [
+            "record alignment is asserted only where the harness owns the schedule (burst injected in a gap, complete before the next file is read); under true concurrency only prefix + dependency closure over complete records",
+            "an archive request on an unregistered server fails (no gcaPubKey.dat yet); a failed request is not an archive",
+            "the rate-limit oracle only reports certain violations (interval arithmetic on request timestamps)",
+        ],
+    },
     "C13": {
         "level": "exploration",
         "jobs": [
@@ -212,6 +225,11 @@ PROPS = {
 
 # Texts for MANIFEST.json.
 META = {
+    "C14": {
+        "technique": "schedule-owning injection of write bursts into every gap of the archive loop (complete gap x burst matrix on generated states), concurrent writers, and rate-limit schedules judged by interval arithmetic",
+        "text": "For generated server states the archive is requested and a write burst (new device + first report, registration + first device, rotation, conflicting authorization, report burst) is executed from the verif point before each file is added; the zip is parsed by the harness and checked for record-aligned prefixes, dependency closure under the archived keys, absence of private key material and an exact server.pubkey. Archives taken under truly concurrent writers are checked without the alignment clause. Request bursts are judged against the configured limit with the C19 interval oracle. Exploration only.",
+        "note": "Whether a read(2) racing an O_APPEND write(2) can observe part of it is a kernel property and is not judged.",
+    },
     "C13": {
         "technique": "schedule-owning interleaving injection at critical-section boundaries with a metamorphic serial-order oracle (complete point x interferer matrix), plus randomised order-independent workloads under the Go race detector against the reference model",
         "text": "For every yield point between critical sections and every interfering operation of the menu, the interferer is executed from inside the outer operation and the final state is compared with both serial orders run on identical copies of the data directory; panics, held mutexes and CheckInvariants are checked in every cell. Many-goroutine workloads with order-independent outcome run under -race with the background jobs free-running and are compared with the reference model. Exploration: absence of races or deadlocks on unexplored schedules is not claimed.",
